@@ -61,6 +61,15 @@ def parse_paths_answer(ans):
     return int(n), more == '1', vals
 
 
+def split_paths_answer(ans):
+    """tlbpaths answer -> (n, more, [raw gent answers]) (values parsed on demand)"""
+    if not ans.startswith('ok '):
+        return None
+    head, _, body = ans.partition(';')
+    _, n, more = head.split()
+    return int(n), more == '1', body.split(';') if body else []
+
+
 def parse_trace_answer(ans):
     if not ans.startswith('ok '):
         return None
